@@ -71,8 +71,10 @@ HEADLINE = [
     "AsynqModel.Debug.C18_again_refines_partial",
     "AsynqModel.Debug.C18_again_observer_exact",
     "AsynqModel.Debug.C18_again_spec_holds_partial",
-    # audit 3: the two open findings (model of the code as it is) and the exactness of their signatures
-    "AsynqModel.Debug.C18_reject_counterexample",
+    # audit 3: exception classes that reject attribute assignment (repaired b55deef) and the open finding badHeld
+    "AsynqModel.Debug.C18_reject_repaired",
+    "AsynqModel.Debug.C18_reject_traceback_counterexample",
+    "AsynqModel.Debug.C18_reject_repaired_small",
     "AsynqModel.Debug.C18_reject_signature_exact",
     "AsynqModel.Debug.C18_badheld_signature_exact",
 ]
@@ -109,8 +111,8 @@ RULE = ("filter: tracebacks over the pattern tables extracted from the current d
         "every handler of the task on top, 1-8 consumers in a row, hook failures and returned values asked again, plus "
         "250 (2500 thorough) random chains of depth 1-8 each followed by 1-6 random later retrievals, and new tasks on top that "
         "await ErrorFuture(task.error()) instead of the task (yield / value(), every handler, depth 1-3); glue-reject (exception "
-        "class that rejects attribute assignment, all awaits by yield): every chain of depth 1 and 2 over handler x own raise x "
-        "bottom, plain chains of depth 1-8 x raise position, 150 (2000 thorough) random chains; repr: a fixed list of scenarios "
+        "class that rejects attribute assignment): every chain of depth 1 and 2 over await x handler x own raise x bottom (quick: outer "
+        "level by yield), plain chains of depth 1-8 x raise position, hook raisers of depth 1-4, 150 (2000 thorough) random chains; repr: a fixed list of scenarios "
         "per object kind that reaches every cell of the model's state table which public API calls can reach (incl. "
         "`almost finished` tasks seen from a DUMP_QUEUED_RESULTS write, futures asked for their repr from inside their own "
         "repr, format_error of non-exceptions with a traceback and of exceptions whose `_traceback` is garbage), each cell with str/repr/dump; scoped values, their "
@@ -164,10 +166,12 @@ ASSUMPTIONS = [
     "without a traceback), by `.value()` inside a body Python's own `raise` keeps the earlier frames behind the task's "
     "frame; outside the model (the statement speaks of the levels the exception crosses and the raising frame, both are "
     "shown), probed by hand only",
-    "exceptions that reject attribute assignment (glue-reject): modelled for chains in which every level awaits by yield "
-    "and the bottom is nothing or an ErrorFuture (rejectDomain); synchronous child calls (the rejected assignment's error "
-    "then arrives INSIDE the calling body and travels on as an ordinary exception over a dirty scheduler), context-hook "
-    "failures and later retrievals of such exceptions are not generated",
+    "exceptions whose class rejects attribute assignment (frozen dataclass; glue-reject) are judged against the SAME "
+    "reference at full strength (the statement has no exception for them).  Since /repo b55deef they are delivered to every "
+    "awaiter and the caller and the scheduler is clean; their traceback is INCOMPLETE (no `_task` -> every "
+    "`throw(type(error), error)` restarts `__traceback__`; format_error finds no `_traceback`): open finding "
+    "glue/exception-rejecting-attributes-traceback-incomplete, whose name is given only when nothing else deviates and the "
+    "result is the one the model of the code predicts.  Later retrievals of such exceptions are not generated",
     "later retrievals: every later consumer asks the OUTERMOST task (the chain's top, or the last task put on top of it); "
     "asking a task again after another task has consumed its error is the shared-failing-task situation above "
     "(`_traceback` lives on the exception object, not on the task) and stays outside",
@@ -488,29 +492,34 @@ def gen_glue_cases(tier, rng):
 
 
 def _reject_norm(case):
-    """into the domain modelled for exceptions that reject attribute assignment (Lean: rejectDomain): every level
-    awaits by yield, the bottom is nothing or an ErrorFuture"""
-    c = {"sub": "glue", "bottom": 0 if isinstance(case["bottom"], list) else case["bottom"],
-         "levels": [dict(L, **{"await": "yld"}) for L in case["levels"]], "exc": "frozen"}
-    return c
+    """the same chain with exceptions of the class that rejects attribute assignment (driver kind glue-reject)"""
+    return {"sub": "glue", "bottom": case["bottom"], "levels": [dict(L) for L in case["levels"]], "exc": "frozen"}
 
 
 def gen_reject_cases(tier, rng):
-    """chains whose exceptions reject attribute assignment (frozen dataclass; audit 3, A2 - open finding
-    glue/exception-rejecting-attributes-not-delivered): every chain of depth 1 and 2 over handler x own raise x bottom
-    (all awaits by yield, orphans everywhere), plain chains of depth 1-8 x raise position, random chains"""
+    """chains whose exceptions reject attribute assignment (frozen dataclass; audit 3, A2 - repaired in /repo b55deef;
+    ordinary cases: the exception must be delivered to every awaiter, the scheduler must be clean afterwards): every
+    chain of depth 1 and 2 over await x handler x own raise x bottom (orphans everywhere), plain chains of depth 1-8 x
+    raise position, hook raisers of depth 1-4, random chains"""
     cases = []
-    alpha = [_level("yld", h, o, 1) for h in HANDLERS for o in (None, 1)]
+    alpha = [_level(a, h, o, 1) for a in ("yld", "sync") for h in HANDLERS for o in (None, 1)]
+    ylds = [l for l in alpha if l["await"] == "yld"]
     for b in (0, 1):
         for l0 in alpha:
             cases.append({"sub": "glue", "bottom": b, "levels": [dict(l0)], "exc": "frozen"})
-        for l0, l1 in itertools.product(alpha, alpha):
+        for l0, l1 in itertools.product(alpha if tier != "quick" else ylds, alpha):
             cases.append({"sub": "glue", "bottom": b, "levels": [dict(l0), dict(l1)], "exc": "frozen"})
     for d in range(1, 9):
         for r in range(d):
-            levels = [_level(orphan=i % 2, pre=i % 3, handler=HANDLERS[(i + r) % len(HANDLERS)]) for i in range(r + 1)]
+            levels = [_level(orphan=i % 2, pre=i % 3, handler=HANDLERS[(i + r) % len(HANDLERS)],
+                             await_="sync" if (i + d) % 4 == 3 else "yld") for i in range(r + 1)]
             levels[r]["own"] = r % 3
             cases.append({"sub": "glue", "bottom": 0, "levels": levels, "exc": "frozen"})
+    for d in range(1, 5):
+        for mode in ("pause", "resume"):
+            for h in (0, 2):
+                levels = [_level("sync" if i == 1 else "yld", orphan=1, pre=i % 2) for i in range(d)]
+                cases.append({"sub": "glue", "bottom": ["hook", mode, h], "levels": levels, "exc": "frozen"})
     for _ in range(150 if tier == "quick" else 2000):
         cases.append(_reject_norm(gen_glue_random(rng)))
     return cases
@@ -1220,6 +1229,11 @@ def run_glue(case):
         e = _glue_again(cur, case.get("first", "value"))
     ev, crossed = result_event(e)
     ctx.events.append(ev)
+    if ctx.E is GlueFrozenErr:
+        # the scheduler must be clean when the outermost call has returned (before b55deef it kept the abandoned tasks)
+        sch = _sched.get_scheduler()
+        if len(sch._tasks) or sch.active_task is not None:
+            ctx.events.append("(stack start 999 (999))")
     # orphans: run by the caller after the chain is finished, outermost first
     for o in ctx.stash:
         try:
